@@ -312,6 +312,15 @@ def tie(ctx):
                     if got != depth.get(p, 0):
                         why.append(f"position {p}: {got} non-insertion observations but {depth.get(p, 0)} eligible reads span it")
                         break
+                # the same through the public accessor the stages and the normalisation read (insertions are not depth)
+                if not why:
+                    for p in sorted(set(depth) | set(cov._coverage)):
+                        t_ = cov.total(p)
+                        if t_ != depth.get(p, 0):
+                            why.append(f"position {p}: Coverage.total gives {t_} but {depth.get(p, 0)} eligible reads span it")
+                            break
+                stats["bam_without_catalogued_indels"] += not smp._indel_sites
+                stats["bam_with_insertion_reads"] += any(op == 1 for x in reads for op, _ in x["cigar"])
                 for (p, o), c in counts.items():
                     if o == "-":
                         continue
